@@ -35,7 +35,12 @@ ASSUMPTIONS = [
     "CPython's recursion limit is observed (default 1000 enforced by the check), not modelled",
     "the SMT-LIB parser is not modelled in Lean: its create_node calls per node are compared with a closed form "
     "(1 per interior node) and bounded by the number of textual occurrences",
-    "wall time is recorded in the evidence and never compared",
+    "wall time is recorded in the evidence and never compared; what is compared is the WORK METER: lines executed "
+    "inside <checkout>/pysmt (sys.monitoring) + FNode comparisons through == / in + entries of memo / manager "
+    "tables traversed as a whole, at size N and 4N (ratio <= 6 for linear work: the largest ratio of the unchanged "
+    "tree is 4.54; ratio <= 1.5 for the same small requests in an environment with a 4 times longer history: "
+    "exactly 1.0 on the unchanged tree).  Work done inside C-level built-ins on other containers is invisible to it; "
+    "size:dag / size:symbols / size:bool_dag are excluded (their callback bodies build the set of all descendants)",
     "callback *bodies* are not part of the model: it predicts which callbacks run, in which order, the loop "
     "iterations, pushes, final stack and memo key set",
 ]
@@ -1304,6 +1309,264 @@ def check_partitions(ctx, timings, quick):
                 pop_env()
 
 
+# ----------------------------------------------------------------------------------------------
+# the work meter: deterministic count of the work done INSIDE pysmt during an operation
+# ----------------------------------------------------------------------------------------------
+import os as _os
+import pysmt as _pysmt
+
+PYSMT_DIR = _os.path.dirname(_os.path.abspath(_pysmt.__file__)) + _os.sep
+
+
+class MeteredDict(dict):
+    """a table whose whole-table traversals (iteration, keys/values/items, copy -- also through set(d), list(d),
+    dict(d)) add its size to the running work meter; look-ups and insertions are not touched"""
+    meter = None
+
+    def _scan(self):
+        if MeteredDict.meter is not None:
+            MeteredDict.meter.scanned += len(self)
+
+    def __iter__(self):
+        self._scan()
+        return dict.__iter__(self)
+
+    def keys(self):
+        self._scan()
+        return dict.keys(self)
+
+    def values(self):
+        self._scan()
+        return dict.values(self)
+
+    def items(self):
+        self._scan()
+        return dict.items(self)
+
+    def copy(self):
+        self._scan()
+        return dict.copy(self)
+
+
+class WorkMeter(object):
+    """work = lines executed in code objects of <checkout>/pysmt (sys.monitoring LINE events of Python 3.12, other
+    code is switched off at its first event) + comparisons of two FNodes through `==` / `in` on sequences (FNode has
+    no __eq__: one is installed for the duration, it counts and answers by identity as the default does)
+    + entries of metered tables traversed as a whole.  All three are counts of events, not times: the same code
+    on the same input gives the same number whatever the load of the machine."""
+
+    def __init__(self):
+        self.lines = self.eq = self.scanned = 0
+        self.tool = None
+
+    def __enter__(self):
+        mon = sys.monitoring
+        for tid in (4, 5, 2, 1):        # 3 is used by the runner's coverage
+            try:
+                mon.use_tool_id(tid, "verif-work-meter")
+                self.tool = tid
+                break
+            except ValueError:
+                continue
+        me = self
+
+        def on_line(code, lineno):
+            if code.co_filename.startswith(PYSMT_DIR):
+                me.lines += 1
+                return None
+            return mon.DISABLE
+
+        def counting_eq(a, b):
+            me.eq += 1
+            return a is b
+        if self.tool is not None:
+            mon.register_callback(self.tool, mon.events.LINE, on_line)
+            mon.set_events(self.tool, mon.events.LINE)
+        FNode.__eq__ = counting_eq
+        MeteredDict.meter = self
+        return self
+
+    def __exit__(self, *a):
+        mon = sys.monitoring
+        if self.tool is not None:
+            mon.set_events(self.tool, 0)
+            mon.register_callback(self.tool, mon.events.LINE, None)
+            mon.free_tool_id(self.tool)
+        del FNode.__eq__
+        MeteredDict.meter = None
+        return False
+
+    @property
+    def work(self):
+        return self.lines + self.eq + self.scanned
+
+
+def meter_tables(env):
+    """the memo tables of the environment's walkers and the manager's tables become metered tables"""
+    for w in [env.stc, env.simplifier, env.substituter, env.fvo, env.sizeo, env.qfo, env.theoryo, env.ao, env.typeso]:
+        if type(getattr(w, "memoization", None)) is dict:
+            w.memoization = MeteredDict(w.memoization)
+    m = env.formula_manager
+    m.formulae = MeteredDict(m.formulae)
+    m.symbols = MeteredDict(m.symbols)
+
+
+WORK_LINEAR_LIMIT = 6.0       # work(4N) / work(N) for an operation that is linear in N: 4 (+ lower-order terms)
+WORK_CONSTANT_LIMIT = 1.5     # work(history of 4N nodes) / work(history of N nodes) for the same small requests: 1
+
+
+def _scen_long_lived(N):
+    """the same 20 small requests (construction, type, simplify, substitute, oracles, printing) in an environment
+    that has already built and walked N nodes with every walker"""
+    env = Environment()
+    push_env(env)
+    try:
+        m = env.formula_manager
+        fam = build_family(env, "comb", "plus", N)
+        meter_tables(env)
+        for spec in make_ops():
+            try:
+                spec.call(env, spec.make(env), fam)
+            except Exception:      # noqa
+                pass
+        INT = types.INT
+        with WorkMeter() as mt:
+            for j in range(20):
+                x, y = m.Symbol("ll_x%d" % j, INT), m.Symbol("ll_y%d" % j, INT)
+                f = m.And(m.LE(m.Plus(x, m.Int(j)), y), m.Or(m.Equals(x, y), m.Not(m.LT(y, m.Int(3)))))
+                env.stc.get_type(f)
+                env.simplifier.simplify(f)
+                env.substituter.substitute(f, {x: y})
+                env.fvo.get_free_variables(f)
+                env.sizeo.get_size(f)
+                env.ao.get_atoms(f)
+                env.qfo.is_qf(f)
+                env.theoryo.get_theory(f)
+                env.typeso.get_types(f)
+                f.serialize()
+                smt_printers.to_smtlib(f)
+        return mt
+    finally:
+        pop_env()
+
+
+def _scen_fresh_names(N):
+    """N user symbols named FV0..FV<N-1> (the names of the fresh-symbol template), then N/2 fresh symbols and the
+    CNF of a formula with N/4 definitions (one fresh symbol each)"""
+    env = Environment()
+    push_env(env)
+    try:
+        m = env.formula_manager
+        INT, BOOL = types.INT, types.BOOL
+        for i in range(N):
+            m.Symbol("FV%d" % i, INT)
+        bs = [m.Symbol("fb%d" % i, BOOL) for i in range(N // 4 + 2)]
+        f = m.And([m.Or(m.And(bs[i], bs[i + 1]), m.Not(bs[(i * 7) % len(bs)])) for i in range(N // 4)])
+        meter_tables(env)
+        with WorkMeter() as mt:
+            for i in range(N // 2):
+                m.new_fresh_symbol(INT)
+            rewritings.CNFizer(env).convert(f)
+        return mt
+    finally:
+        pop_env()
+
+
+def _scen_wide(ctor):
+    def go(N):
+        env = Environment()
+        push_env(env)
+        try:
+            m = env.formula_manager
+            xs = [m.Symbol("wa%d" % i, types.BOOL) for i in range(N)]
+            f = getattr(m, ctor)(xs)
+            meter_tables(env)
+            with WorkMeter() as mt:
+                env.simplifier.simplify(f)
+            return mt
+        finally:
+            pop_env()
+    return go
+
+
+def _scen_op(shape, kind, spec):
+    def go(N):
+        env = Environment()
+        push_env(env)
+        try:
+            fam = build_family(env, shape, kind, N // 4 if shape == "diamond" else N)
+            meter_tables(env)
+            w = spec.make(env)
+            with WorkMeter() as mt:
+                try:
+                    spec.call(env, w, fam)
+                except RecursionError:
+                    raise
+                except Exception:      # noqa
+                    pass
+            return mt
+        finally:
+            pop_env()
+    return go
+
+
+WORK_FAMILIES_QUICK = [("comb", "and"), ("comb", "bvmix"), ("wide", "or_atoms"), ("wide", "plus"), ("diamond", "bool")]
+
+
+def work_scenarios(quick):
+    out = [("long-lived-environment", "small-requests", _scen_long_lived, (200, 800), WORK_CONSTANT_LIMIT),
+           ("colliding-fresh-names", "fresh-symbols+cnf", _scen_fresh_names, (200, 800), WORK_LINEAR_LIMIT),
+           ("wide-and", "simplify", _scen_wide("And"), (400, 1600), WORK_LINEAR_LIMIT),
+           ("wide-or", "simplify", _scen_wide("Or"), (400, 1600), WORK_LINEAR_LIMIT)]
+    fams = WORK_FAMILIES_QUICK if quick else ([("comb", k) for k in COMB_KINDS] + [("wide", k) for k in WIDE_KINDS] +
+                                              [("diamond", k) for k in ("bool", "int", "bv", "ite_int", "store")])
+    for shape, kind in fams:
+        for spec in make_ops():
+            if spec.name in QUADRATIC_OPS:
+                continue        # their callback bodies build the set of all descendants at every node (see evidence)
+            out.append(("%s/%s" % (shape, kind), spec.name, _scen_op(shape, kind, spec), (100, 400), WORK_LINEAR_LIMIT))
+    return out
+
+
+def check_work_growth(ctx, timings, quick, only=None):
+    """S: the deterministic work count of an operation at size 4N against size N"""
+    ratios = ctx.extra.setdefault("work_ratios", {})
+    worst = {"linear": 0.0, "constant": 0.0}
+    for family, opname, scen, (n1, n4), limit in work_scenarios(quick):
+        if only is not None and (family, opname) != only:
+            continue
+        if ctx.time_left() < 25:
+            ctx.count("work-growth-cut-by-time-budget")
+            break
+        t0 = time.time()
+        a, b = scen(n1), scen(n4)
+        ratio = b.work / float(max(1, a.work))
+        cls = "constant" if limit == WORK_CONSTANT_LIMIT else "linear"
+        worst[cls] = max(worst[cls], ratio)
+        ratios["%s %s" % (family, opname)] = round(ratio, 3)
+        timings.setdefault("work:" + opname, []).append((family, opname, n4, round(time.time() - t0, 3)))
+        ctx.count("op:work-growth")
+        ctx.case(("work", family, opname))
+        if ratio > limit:
+            ctx.report_s({"family": family, "op": opname, "oracle": "work-growth"},
+                         "%s on %s: work(N=%d) = %d (lines %d, node comparisons %d, table entries traversed %d), "
+                         "work(N=%d) = %d (lines %d, comparisons %d, traversed %d): ratio %.2f > %.1f (%s)" % (
+                             opname, family, n1, a.work, a.lines, a.eq, a.scanned, n4, b.work, b.lines, b.eq, b.scanned,
+                             ratio, limit, "the requests are the same, only the environment's history is 4 times "
+                             "larger" if cls == "constant" else "4 for linear work, 16 for quadratic"),
+                         {"family": {"shape": "work-growth", "kind": family, "k": n4}, "op": opname})
+    ctx.extra["work_meter"] = {
+        "unit": "lines executed inside <checkout>/pysmt + FNode comparisons by == / in + entries of memo / manager "
+                "tables traversed as a whole; deterministic event counts",
+        "linear_limit": WORK_LINEAR_LIMIT, "constant_limit": WORK_CONSTANT_LIMIT,
+        "worst_ratio_this_run": {k: round(v, 3) for k, v in worst.items()},
+        "excluded": sorted(QUADRATIC_OPS),
+        "why_no_false_alarm": "the counts do not depend on time or load; on the unchanged tree the largest linear "
+                              "ratio measured over all families x operations is 4.54 (comb/bvmix simplify), the "
+                              "long-lived-environment ratio is exactly 1.0",
+    }
+
+
 def harness_tree_size(f):
     """number of nodes of the tree expansion, computed by the harness"""
     memo = {}
@@ -1537,6 +1800,8 @@ def run(ctx):
     rng = ctx.rng
     timings = {}
     pending = []      # (fam, rec, fam_sig) waiting for the model's answer
+    # ---------- the work meter first: a change that makes everything slower would otherwise use up the time budget
+    check_work_growth(ctx, timings, ctx.tier == "quick")
     # ---------- the families
     for shape, kind, k, opset in plan(ctx):
         if ctx.time_left() < 40:
@@ -1642,6 +1907,9 @@ def replay(ctx, rep):
         return
     if fp.get("shape") == "big-argument":
         check_big_arguments(ctx, timings)
+        return
+    if fp.get("shape") == "work-growth":
+        check_work_growth(ctx, timings, False, only=(fp["kind"], r.get("op")))
         return
     if fp.get("shape") == "random":
         ctx.report_k("random-DAG cases are regenerated from the seed: VERIF_SEED=%s ./check C20" % rep.get("seed"), r)
